@@ -12,7 +12,7 @@ RULE = (
     "empty rows anywhere, cells beyond the parsed columns, case changes of row markers / Format value / property names / "
     "the X mark, surrounding blanks in the cells the loader strips, permuted property rows - must stay accepted and parse to "
     "the same interface (format settings, field names in order, per field class / flag / length / rule / example, check "
-    "names / classes / rules); (b) exactly one defect from a catalogue of ~45 structural defects applied at every "
+    "names / classes / rules; examples are kept as typed, blanks included); (b) exactly one defect from a catalogue of ~46 structural defects (among them a blank in front of a listed value as example) applied at every "
     "applicable row must be refused with an InterfaceError whose text names that row (defects only detectable at "
     "completion are exempt from the row clause). A case is the CID text; distinct by digest; every rewrite or defect case "
     "is non-trivial."
@@ -300,6 +300,11 @@ def defects(rng, rows, model):
             verdict = F.expected(decl, model.fmt, example)
             if verdict[0] == F.REJECT:
                 yield "example-rejected-by-own-field:%s" % ftype, variant(i, setcell(2, example)), i + 1, None
+        if ftype in ("Choice", "Constant") and kind != "fixed" and rows[i][2]:
+            # an example is the cell as typed: a blank in front of a listed value is no listed value
+            example = " " + rows[i][2]
+            if F.expected(dict(model.fields[n]), model.fmt, example)[0] == F.REJECT:
+                yield "example-rejected-by-own-field:blank-before-listed-value", variant(i, setcell(2, example)), i + 1, None
     # an example has to be accepted by its own field as the complete CID declares it: here the data format row that makes
     # the field refuse the example stands below the field
     if not any(r[0] == "D" and r[1].lower() == "allowed characters" for r in rows):
@@ -451,6 +456,15 @@ def run(ctx):
         last_field = max(i for i, r in enumerate(rows) if r[0] == "F")
         filler = ["F", "filler_column", "", "X", "3" if model.kind == "fixed" else "", "Constant", ""]
         check_accept(ctx, rows[: last_field + 1] + [filler] + rows[last_field + 1 :], "always-empty-constant")
+        # a free-text example with blanks around it: accepted, and kept as typed
+        if model.kind != "fixed" and not any(r[0] == "D" and r[1].lower() == "allowed characters" for r in rows):
+            spaced = rows[: last_field + 1] + [["F", "free_text_column", " x ", "", "3", "Text", ""]] + rows[last_field + 1 :]
+            spaced_sig = check_accept(ctx, spaced, "example-with-blanks-around-it")
+            if spaced_sig is not None:
+                kept = [f[5] for f in spaced_sig["fields"] if f[0] == "free_text_column"]
+                if kept != [" x "]:
+                    ctx.violation("C09:example-not-kept-as-typed", {"cid_rows": spaced, "expect": "accepted", "what": "example-with-blanks-around-it"},
+                                  "the example of a field differs from the cell of the CID", expected=[" x "], observed=kept)
         for _ in range(4):
             rewritten, applied = rewrite(rng, rows)
             check_accept(ctx, rewritten, "rewrite:" + "+".join(sorted(applied)), base_sig, rows)
